@@ -942,6 +942,8 @@ impl<'c> Eng<'c> {
     }
 
     fn call<T>(&mut self, f: impl FnOnce(&mut StunAgent) -> T) -> Option<T> {
+        // one agent call (and the bookkeeping up to the next one) is what the watchdog measures
+        self.ctx.wd.tick();
         let trap = self.cfg.trap_clock;
         let sub = self.cfg.with_subscriber;
         let agent = &mut self.agent;
@@ -2108,6 +2110,9 @@ pub fn gen_resp_seal(rng: &mut Rng) -> RespSeal {
 
 pub fn gen_configure(rng: &mut Rng, tid: u8) -> Op {
     let rto = match rng.below(10) {
+        // the edges of the duration range: no interval at all (every retransmission is due at once),
+        // an hour, a day
+        0 if rng.chance(1, 3) => *rng.pick(&[0u64, 0, 3_600_000, 86_400_000]),
         0 => 1,
         1 => 2,
         2 => 499,
